@@ -48,3 +48,8 @@ pub fn pending() -> usize {
 pub fn reset() {
     LOG.with(|l| *l.borrow_mut() = Vec::new());
 }
+
+/// Make room for `n` more events so that logging a destructor run does not allocate.
+pub fn reserve(n: usize) {
+    LOG.with(|l| l.borrow_mut().reserve(n));
+}
